@@ -590,6 +590,10 @@ func init() {
 		fv.oblige(st, env, "S", "extern-requires", Le(IntLit(0), c.args[0]), c.call.Lparen, "strings.Builder.Grow: n >= 0 (negative count panics)")
 		return nil
 	})
+	reg("github.com/octohelm/x/types.FromTType", "typesutil.FromTType(t): the adaptor of a go/types type - it UNWRAPS an alias to the type it stands for (the alias name is lost). Precondition (naming-system contract of C09/C11, checked at every call in a function under contract): t is not a *types.Alias, whose identifier has to be rendered through the namer instead", func(fv *FuncVerifier, st *State, env *Env, c *CallCtx) []Term {
+		fv.oblige(st, env, "S", "extern-requires", Not(App(SBool, "=", App(SInt, "dyn", c.args[0]), fv.w.Tag("*go/types.Alias"))), c.call.Lparen, "typesutil.FromTType: not for a *types.Alias (the adaptor unwraps it: the alias would be rendered as the type it stands for)")
+		return []Term{fv.pureExt("github.com/octohelm/x/types.FromTType", SRef, c.args[0])}
+	})
 	reg("(github.com/octohelm/x/types.Type).String", "typesutil.Type.String(): the type spelled out by go/types / reflect - every named type inside it with its FULL package path, not through the file's namer. Precondition (the naming-system contract of C03/C11, checked at every call in a function under contract): the receiver is a named type or has no component types (kind not Array, Chan, Map, Pointer, Slice, Struct), so no package path can hide inside the text", func(fv *FuncVerifier, st *State, env *Env, c *CallCtx) []Term {
 		kind := fv.pureExt("(github.com/octohelm/x/types.Type).Kind", SInt, c.recv)
 		pkgPath := fv.pureExt("(github.com/octohelm/x/types.Type).PkgPath", "Seq_Int", c.recv)
